@@ -1111,6 +1111,53 @@ func checkC19(c *Check) {
 		}
 		c.Hold("R7", "connectionForDomain:pooled-used-only-if-present", r.FI.Decl.Pos(), msg == "", msg)
 
+		// … and a connection the pool did hand out is taken over or closed: it is not dropped in favour of a new one
+		// (the pool has forgotten it; nobody would ever close it)
+		if pooled != nil && len(gets) == 1 {
+			taken := func(q Pt) bool {
+				if q.Node() == nil {
+					return false
+				}
+				hit := false
+				ast.Inspect(q.Node(), func(x ast.Node) bool {
+					switch e := x.(type) {
+					case *ast.TypeAssertExpr:
+						if objOf(ri, e.X) == pooled {
+							hit = true
+						}
+					case *ast.CallExpr:
+						if recvObj(ri, e) == pooled && methodName(e) == "Close" {
+							hit = true
+						}
+						if isCall(ri, e, "~/"+poolRel+".P.Return") {
+							for _, a := range e.Args {
+								if objOf(ri, a) == pooled {
+									hit = true
+								}
+							}
+						}
+					}
+					return true
+				})
+				return hit
+			}
+			gone := func(q Pt) bool {
+				if r.F.IsExitPt(q) {
+					return true
+				}
+				if q.Node() != nil {
+					for _, call := range callsAt(q.Node()) {
+						if isCall(ri, call, "~/"+remoteRel+".remoteDelivery.newConn") {
+							return true
+						}
+					}
+				}
+				return false
+			}
+			path, f := r.F.ReachRefined(gets[0], pooled, false, false, gone, taken)
+			c.Hold("R7", "connectionForDomain:pooled-not-dropped", r.FI.Decl.Pos(), !f, "a connection the pool handed out can be left behind – neither taken over nor closed – while a new one is opened (for a REQUIRETLS message the pooled connection is ignored after it has been taken out of the pool): the pool has forgotten it and nobody closes it: "+r.F.Describe(path))
+		}
+
 		// ownership of conn
 		msg = ""
 		var connObj types.Object
